@@ -40,7 +40,11 @@ enum SimPointKind {
   SP_EVENT_WAIT = 22,
   SP_EVENT_WAKE = 23,
   SP_PCGUARD = 24,
+  SP_PLAIN_R = 25, // plain (non-atomic) read by code under test ("fine" variants)
+  SP_PLAIN_W = 26, // plain write
 };
+// called by the plain-access shims: a point iff `pc` lies in code under test
+void sim_plain_point(void* pc, const void* addr, int is_write);
 
 // ---- fault kinds (bit positions in masks, indices in counters) ----
 enum SimFaultKind {
@@ -140,6 +144,9 @@ void sim_fail(const char* cls, const char* fmt, ...) __attribute__((noreturn, fo
 // after sim_end() if nothing fatal happened first
 void sim_soft_fail(const char* cls, const char* fmt, ...) __attribute__((format(printf, 2, 3)));
 void sim_report_soft(void);
+// memory-safety-only mode (whole-library sanitizer checks): oracle violations are reported as
+// status "incidental" after a leak check instead of "violation"
+void sim_set_memonly(int on);
 // harness asks whether the step budget hang handler should call back
 typedef void (*sim_hang_cb)(char* buf, size_t n);
 void sim_set_hang_describer(sim_hang_cb cb);
